@@ -43,7 +43,18 @@ theorem c_oBlk (sh : Sh) (pp : PPc) (app : SpscA.PPc) (acp : SpscA.CPc) (hi : Na
     (h : Inv ⟨sh, pp, .oBlk hi, app, acp⟩) (hs : step ⟨sh, pp, .oBlk hi, app, acp⟩ (.cons e) = some s') : Inv s' := by
   obtain rfl : acp = .pGet := h.projc
   openC
-  subst cloc
+  simp only [Option.some.injEq] at hs
+  subst hs
+  splitC
+  case ploc => frameP
+  fin
+
+set_option maxHeartbeats 1000000 in
+theorem c_oRd (sh : Sh) (pp : PPc) (app : SpscA.PPc) (acp : SpscA.CPc) (hb hi : Nat) (e : Env) (s' : St)
+    (h : Inv ⟨sh, pp, .oRd hb hi, app, acp⟩) (hs : step ⟨sh, pp, .oRd hb hi, app, acp⟩ (.cons e) = some s') : Inv s' := by
+  obtain rfl : acp = .pGet := h.projc
+  openC
+  obtain ⟨rfl, rfl⟩ := cloc
   have hlt := ainv.cget (Or.inl rfl)
   simp only [] at hlt
   have hv : sh.val sh.headBlk (sh.headIdx % sh.B) = sh.a.val sh.a.head := by grind
